@@ -295,4 +295,6 @@ func uniq(xs []string) []string {
 func extraJobs(L *Loaded, id string, opt runOpts) []unitJob { return extraJobsImpl(L, id, opt) }
 
 // a cover query guards against vacuity: it fails only if the solver proves the path unreachable
-func coverOK(status string) bool { return status == "sat" || status == "unknown" || status == "timeout" }
+func coverOK(status string) bool {
+	return status == "sat" || status == "unknown" || status == "timeout"
+}
